@@ -409,6 +409,8 @@ class FileResponse(Response, FileResponseMixin):
     async def handle_all(
         self, send_header_only: bool, file_size: int, scope: Scope, send: Send
     ) -> None:
+        # the object may have answered a single-range request before
+        self.headers.pop("content-range", None)
         self.headers["content-type"] = str(self.content_type)
         self.headers["content-length"] = str(file_size)
         await send_http_start(send, 200, self.list_headers(as_bytes=True))
@@ -454,6 +456,7 @@ class FileResponse(Response, FileResponseMixin):
         ranges: Sequence[Tuple[int, int]],
     ) -> None:
         boundary = "".join(random_choices("abcdefghijklmnopqrstuvwxyz0123456789", k=13))
+        self.headers.pop("content-range", None)
         self.headers["content-type"] = f"multipart/byteranges; boundary={boundary}"
         content_length, generate_headers = self.generate_multipart(
             ranges, boundary, file_size, self.content_type
